@@ -1,5 +1,5 @@
 #!/bin/sh
-# Offline setup: verify the tools, import gallia from /repo, parse every TLA+ module.
+# Offline setup: verify the tools, import gallia from /repo, parse every TLA+ module (SANY, in parallel).
 set -e
 HERE="$(cd "$(dirname "$0")" && pwd)"
 cd "$HERE"
@@ -7,12 +7,22 @@ command -v java >/dev/null
 test -f /opt/veriftools/tla/tla2tools.jar
 PYTHONPATH="$HERE:/repo/src" /venv/bin/python -c "import gallia, hypothesis, harness.tlc"
 mkdir -p evidence replays
-fail=0
-for f in spec/*.tla; do
-  m=$(basename "$f" .tla)
-  if ! (cd spec && java -cp /opt/veriftools/tla/tla2tools.jar:/opt/veriftools/tla/CommunityModules-deps.jar tla2sany.SANY "$m.tla" >/tmp/sany.$$ 2>&1) || grep -q -E "Parse Error|Semantic errors|Fatal errors|Could not" /tmp/sany.$$; then
-    echo "SANY rejects $m"; tail -20 /tmp/sany.$$; fail=1
+OUT=$(mktemp -d)
+trap 'rm -rf "$OUT"' EXIT
+ls spec/*.tla | xargs -n 1 -P 8 sh -c '
+  m=$(basename "$1" .tla)
+  d=$(mktemp -d)
+  if ! (cd spec && java -Djava.io.tmpdir="$d" -cp /opt/veriftools/tla/tla2tools.jar:/opt/veriftools/tla/CommunityModules-deps.jar tla2sany.SANY "$m.tla" >"$0/$m.log" 2>&1) \
+     || grep -q -E "Parse Error|Semantic errors|Fatal errors|Could not" "$0/$m.log"; then
+    touch "$0/$m.failed"
   fi
+  rm -rf "$d"
+' "$OUT"
+# A module that does not parse makes the check that uses it exit 2 (machinery failure) by itself; here it is
+# only reported, so that a growth module under construction cannot break the setup of the registered checks.
+for f in "$OUT"/*.failed; do
+  [ -e "$f" ] || continue
+  m=$(basename "$f" .failed)
+  echo "WARNING: SANY rejects spec/$m.tla"; tail -5 "$OUT/$m.log"
 done
-rm -f /tmp/sany.$$
-exit $fail
+exit 0
